@@ -176,7 +176,7 @@ impl Check for C03 {
         "fault_enumeration"
     }
     fn rule(&self) -> String {
-        format!("Fault enumeration through the model peer's field maps: for every message of every target (6 login protocol versions, 3 expansions, both directions; quick tier: all login + a seed-rotated quarter of the world messages) a canonical frame is generated and every structured corruption is injected once ({} slots per message): truncation at each field boundary and inside a field (stream ends early / header announces less), every count/length/size/decompressed-size/mask-block-count field set to 0, 1, true+-1, 0x7F.., 0x80.., max, every enum field an undeclared value, Bool>=2, flags all-ones, DateTime out of range, strings without NUL / invalid UTF-8 / 300 bytes, packed-guid and built-in mask patterns announcing more than remains, sentinel-less achievement arrays; slots beyond the enumerated faults and the sampled part draw compressed-payload corruption, lying headers, bit flips, random bodies and combinations. The faulty frame is placed after 0-2 intact messages and before one more, and is read through the opcode-enum reader, the typed expect helper (and read_initial_message for login) by the blocking (whole buffer and chunked with EINTR), tokio and async-std readers under a scheduled delivery. Every read must return Ok or Err; panics are caught with location, process deaths attributed by the supervisor, allocation observed by a counting allocator (budget 1 GiB per scenario). Non-trivial: the fault actually reached a reader (a mutated byte or the cut was delivered); distinct = distinct event-log hashes.", SLOTS)
+        format!("Fault enumeration through the model peer's field maps: for every message of every target (6 login protocol versions, 3 expansions, both directions; quick tier: all login + a seed-rotated quarter of the world messages) a canonical frame is generated and every structured corruption is injected once ({} slots per message): truncation at each field boundary and inside a field (stream ends early / header announces less), every count/length/size/decompressed-size/mask-block-count field set to 0, 1, true+-1, 0x7F.., 0x80.., max, every enum field an undeclared value, Bool>=2, flags all-ones, DateTime out of range, strings without NUL / invalid UTF-8 / 300 bytes, packed-guid and built-in mask patterns announcing more than remains, sentinel-less achievement arrays; slots beyond the enumerated faults and the sampled part draw compressed-payload corruption, lying headers, bit flips, random bodies and combinations. The faulty frame is placed after 0-2 intact messages and before one more, and is read through the opcode-enum reader, the typed expect helper (and read_initial_message for login) by the blocking (whole buffer and chunked with EINTR), tokio and async-std readers under a scheduled delivery, and (world) once more through the decrypting readers with the headers encrypted under the session key, as an authenticated hostile peer would send them. Every read must return Ok or Err; panics are caught with location, process deaths attributed by the supervisor, allocation observed by a counting allocator (budget 1 GiB per scenario). Non-trivial: the fault actually reached a reader (a mutated byte or the cut was delivered); distinct = distinct event-log hashes.", SLOTS)
     }
     fn assumptions(&self) -> Vec<String> {
         vec![
@@ -188,7 +188,7 @@ impl Check for C03 {
     fn components(&self) -> Value {
         json!({"real": ["wow_world_messages readers (working tree)", "wow_login_messages readers (3 generated copies per message)", "flate2/zlib", "tokio/futures read_exact"],
                "simulated": ["hostile peer (model peer + fault targeting)", "transport (SimPipe)", "executor", "allocator budget (counting global allocator)", "process supervisor (abort attribution)"],
-               "not_exercised": ["encrypted readers with hostile headers (same body parsers; header halves are wow_srp)"]})
+               "not_exercised": ["login has no encrypted entry points"]})
     }
     fn plan(&self, tier: Tier) -> (u64, u64) {
         match tier {
@@ -367,6 +367,84 @@ impl Check for C03 {
             o.count("interrupts", r.stats.interrupts);
             o.count("eof_or_error_at_end", r.stats.eofs);
             log.u64(r.log.0);
+        }
+        // the same stream from an authenticated hostile peer: headers encrypted with the session's cipher, read through
+        // the decrypting entry points (world only)
+        if case.login.is_none() {
+            let mut starts = vec![];
+            let mut p = 0usize;
+            if let Some(a) = sc["pre"].as_array() {
+                for x in a {
+                    starts.push(p);
+                    p += json_to_bytes(&x["bytes"]).len();
+                }
+            }
+            starts.push(fault_at);
+            if !sc["post"].is_null() {
+                starts.push(fault_at + faulty.len());
+            }
+            for (fl, sched, tag) in [(Flavour::Sync, &ss, "enc-sync"), (Flavour::Tokio, &sa, "enc-tokio"), (Flavour::Astd, &sa, "enc-astd")] {
+                let mut crypto = session_crypto(case.exp, [7u8; 40]);
+                let mut enc_stream = stream.clone();
+                for s in &starts {
+                    if *s >= enc_stream.len() {
+                        continue;
+                    }
+                    let hl = match case.dir {
+                        Dir::Client => 6,
+                        Dir::Server => {
+                            if case.exp == Exp::Wrath && enc_stream[*s] & 0x80 != 0 {
+                                5
+                            } else {
+                                4
+                            }
+                        }
+                    };
+                    let end = (*s + hl).min(enc_stream.len());
+                    let e = match case.dir {
+                        Dir::Client => &mut crypto.client_enc,
+                        Dir::Server => &mut crypto.server_enc,
+                    };
+                    e.encrypt(&mut enc_stream[*s..end]);
+                }
+                let mut r = SimReader::new(&enc_stream, sched);
+                r.end_error = end_error;
+                let budget = 8 * enc_stream.len() as u64 + 4096 + 16 * sched.steps.len() as u64;
+                for k in 0..names.len() + 1 {
+                    let before = r.consumed();
+                    let dec = match case.dir {
+                        Dir::Client => &mut crypto.server_dec,
+                        Dir::Server => &mut crypto.client_dec,
+                    };
+                    let res = guarded(|| match (&entry0, names.get(k)) {
+                        (Entry::Expect(_), Some(n)) => read_expect(case.exp, case.dir, n, fl, Some(dec), &mut r, budget).map(|x| x.0),
+                        _ => Some(read_enum(case.exp, case.dir, fl, Some(dec), &mut r, budget)),
+                    });
+                    match res {
+                        Err((msg, loc)) => {
+                            if is_repo_location(&loc) {
+                                o.violate("no_panic", panic_sig(&msg, &loc), format!("{} reader panicked on {} [{} | {}]: '{}' at {}", tag, case.label(), kind, sc["fault"].as_str().unwrap_or(""), msg, loc));
+                            } else {
+                                o.violate("HARNESS", format!("harness-panic:{}", loc), format!("harness panic '{}' at {}", msg, loc));
+                            }
+                            break;
+                        }
+                        Ok(None) => break,
+                        Ok(Some(ro)) => {
+                            o.ticks += ro.polls;
+                            if ro.budget_exceeded {
+                                o.violate("bounded_liveness", format!("read-stall:{}:{}", tag, case.label()), format!("{} reader did not return within {} polls", tag, budget));
+                                break;
+                            }
+                            log.u64(r.consumed() as u64);
+                            if r.consumed() >= enc_stream.len() || r.consumed() == before {
+                                break;
+                            }
+                        }
+                    }
+                }
+                o.count(&format!("flavour_{}", tag), 1);
+            }
         }
         o.count(&format!("fault_fired_{}", kind), reached as u64);
         o.count(if sc["enumerated"] == true { "enumerated_faults" } else { "sampled_faults" }, 1);
